@@ -126,6 +126,63 @@ def check_blocks(ctx, inst, jobs):
     ctx.probe("graph_composed_from_blocks")
 
 
+def _entity(n):
+    t = n.node_type.name
+    if t == "OPERATION":
+        return (t, n.operation.operation_id)
+    if t == "MACHINE":
+        return (t, n.machine_id)
+    if t == "JOB":
+        return (t, n.job_id)
+    return (t,)
+
+
+def check_blocks_permuted(ctx, inst, jobs, pick):
+    """Graphs composed by hand with the nodes added in another order than the built-in builders use (nothing
+    prescribes an order): node ids then differ from the builders', and the edge blocks must still connect the
+    right entities."""
+    from job_shop_lib import graphs as G
+    from job_shop_lib.graphs import JobShopGraph, Node, NodeType
+
+    try:
+        if pick % 2 == 0:
+            which, spec_name = "disjunctive graph with source and sink added before the operation nodes", "disjunctive"
+            g = JobShopGraph(inst, add_operation_nodes=False)
+            G.add_source_sink_nodes(g)
+            g.add_operation_nodes()
+            G.add_disjunctive_edges(g)
+            G.add_conjunctive_edges(g)
+            G.add_source_sink_edges(g)
+        else:
+            which, spec_name = "complete agent-task graph with machine and job nodes added in descending id order", "agent_task_complete"
+            g = JobShopGraph(inst)
+            for m in reversed(range(inst.num_machines)):
+                g.add_node(Node(node_type=NodeType.MACHINE, machine_id=m))
+            G.add_operation_machine_edges(g)
+            for j in reversed(range(inst.num_jobs)):
+                g.add_node(Node(node_type=NodeType.JOB, job_id=j))
+            G.add_operation_job_edges(g)
+            G.add_global_node(g)
+            G.add_machine_global_edges(g)
+            G.add_job_global_edges(g)
+    except Exception as e:  # noqa: BLE001
+        ctx.fail("builder_raised", f"composing a graph from its building blocks in another node order raised {short_exc(e)}", builder="blocks_permuted")
+        return
+    want_nodes, want_edges = graph_spec(jobs, spec_name)
+    real_id = {_entity(n): n.node_id for n in g.nodes}
+    ctx.check(sorted(real_id, key=str) == sorted((tuple(x) for x in want_nodes), key=str) and len(g.nodes) == len(want_nodes), "nodes_equal_spec",
+              lambda: f"{which}: node entities {sorted(real_id, key=str)}, specification {sorted((tuple(x) for x in want_nodes), key=str)}", builder="blocks_permuted")
+    try:
+        want = {(real_id[tuple(want_nodes[u])], real_id[tuple(want_nodes[v])]): t for (u, v), t in want_edges.items()}
+    except KeyError:
+        return
+    got = {(int(u), int(v)): (dd.get("type").name if dd.get("type") is not None else None) for u, v, dd in g.graph.edges(data=True)}
+    ctx.check(set(got) == set(want), "no_edge_missing", lambda: f"{which}: missing {sorted(set(want) - set(got))[:5]}, extra {sorted(set(got) - set(want))[:5]} (node ids {real_id})", builder="blocks_permuted")
+    bad = [(e, got[e], sorted(want[e], key=str)) for e in got if e in want and got[e] not in want[e]]
+    ctx.check(not bad, "edge_types_equal_spec", lambda: f"{which}: wrongly typed edges {bad[:4]}", builder="blocks_permuted")
+    ctx.probe("graph_composed_in_another_node_order")
+
+
 def check_blocks_on_residual(ctx, inst, jobs, pick):
     """An edge-adding building block applied to a graph from which a node was removed beforehand (a residual
     graph): it either refuses, or the result is faithful - every node of the underlying graph is a live node
@@ -198,6 +255,7 @@ def execute(case, ctx):
     if cfg.get("from_blocks"):
         check_blocks(ctx, inst, jobs)
         check_blocks_on_residual(ctx, inst, jobs, h64(case["ops"]))
+        check_blocks_permuted(ctx, inst, jobs, h64(case["ops"]) >> 8)
     if is_flexible(spec):
         ctx.probe("flexible_instance_graphs")
     source = cfg["source"]
